@@ -199,7 +199,8 @@ pub fn gen_block(g: &mut Gen, depth: usize, out: &mut Vec<String>) {
             g.loops += 1;
             let h = format!("h{}", g.next_id);
             g.next_id += 1;
-            let items: Vec<String> = (0..g.rng.below(4)).map(|i| format!("it{}", i)).collect();
+            // items: mostly plain words; sometimes the empty string or a text with a blank
+            let items: Vec<String> = (0..g.rng.below(4)).map(|i| match g.rng.below(8) { 0 => String::new(), 1 => format!("it {}", i), _ => format!("it{}", i) }).collect();
             if g.rng.chance(1, 3) {
                 stmts.push(line(Some(&h), "range", &["0".to_string(), g.rng.below(4).to_string()]));
             } else {
@@ -208,7 +209,8 @@ pub fn gen_block(g: &mut Gen, depth: usize, out: &mut Vec<String>) {
             g.lines += 3;
             s.push("F".into());
             s.push(kw(g, &KW_FOR));
-            s.push(enc_str("x"));
+            // the loop variable: `x`; one loop in eight uses the legal name `in`
+            s.push(enc_str(if g.rng.chance(1, 8) { "in" } else { "x" }));
             s.push(enc_str(&format!("${{{}}}", h)));
             g.in_for += 1;
             gen_block(g, depth + 1, &mut s);
@@ -229,7 +231,8 @@ pub fn gen_block(g: &mut Gen, depth: usize, out: &mut Vec<String>) {
 pub fn init_vars(rng: &mut Rng) -> String {
     let mut v = vec![];
     for f in FLAGS {
-        v.push(format!("{}={}", enc_str(f), enc_str(rng.pick_s(&["true", "false", "0", "yes", "no", "", "abc"]))));
+        // (values with blanks around a falsy word are truthy: only the exact words are falsy)
+        v.push(format!("{}={}", enc_str(f), enc_str(rng.pick_s(&["true", "false", "0", "yes", "no", "", "abc", " ", " no ", "0 ", "\u{3000}", "No", "FALSE"]))));
     }
     v.push(format!("{}={}", enc_str("v0"), enc_str(rng.pick_s(&VALS))));
     v.push(format!("{}={}", enc_str("v1"), enc_str(rng.pick_s(&VALS))));
